@@ -14,7 +14,7 @@ Local Open Scope Z_scope.
     non-reverting IBTP path (or that path reverts: [d_ibtp_no_revert] off). *)
 Theorem C07_failed_frame_generic : forall c, d_stale_changer c = false ->
   forall e idx s t s' rc cnt,
-  d_fee_after_body c = false ->
+  d_fee_after_body (x_fees c) = false ->
   tx_invalid t = true \/ is_ibtp t = false \/ d_ibtp_no_revert c = false ->
   d_raw_add c = false \/ tx_raws c s t = [] ->
   apply_tx c e idx s t = (s', rc, cnt) -> r_ok rc = false ->
@@ -25,7 +25,7 @@ Print Assumptions C07_failed_frame_generic.
 (** the only other differences are exactly the RawAdd writes executed before the failure *)
 Theorem C07_rawadd_characterised : forall c, d_stale_changer c = false ->
   forall e idx s t s' rc cnt,
-  d_fee_after_body c = false ->
+  d_fee_after_body (x_fees c) = false ->
   tx_invalid t = true \/ is_ibtp t = false \/ d_ibtp_no_revert c = false ->
   apply_tx c e idx s t = (s', rc, cnt) -> r_ok rc = false ->
   (forall a, bal s' a = spec_bal e s t a) /\
@@ -37,7 +37,7 @@ Print Assumptions C07_rawadd_characterised.
 
 (** ... at every position of a block *)
 Theorem C07_block_position_frame : forall c e s pre p t,
-  d_stale_changer c = false -> d_fee_after_body c = false ->
+  d_stale_changer c = false -> d_fee_after_body (x_fees c) = false ->
   tx_invalid t = true \/ is_ibtp t = false \/ d_ibtp_no_revert c = false ->
   let '(si, _, _) := apply_txs c e 0%N (new_block s pre) p in
   let '(si', rc, _) := apply_tx c e (N.of_nat (length p)) si t in
@@ -49,7 +49,7 @@ Print Assumptions C07_block_position_frame.
 (** a transaction rejected before execution (bad signature, rejected proof) never runs its body *)
 Theorem C07_invalid_tx_frame : forall c, d_stale_changer c = false ->
   forall e idx s t s' rc cnt,
-  d_fee_after_body c = false -> tx_invalid t = true ->
+  d_fee_after_body (x_fees c) = false -> tx_invalid t = true ->
   apply_tx c e idx s t = (s', rc, cnt) -> r_ok rc = false /\ frame_ok e s s' t.
 Proof. exact invalid_tx_frame. Qed.
 Print Assumptions C07_invalid_tx_frame.
